@@ -15,7 +15,8 @@ ASSUMPTIONS = [
     "the arithmetic kernels welford_online::calculate_mean / calculate_recurrence_relation_m / calculate_population_variance (barter/src/statistic/algorithm.rs) are additionally tied to the source by translation: tools/rust2lean.py regenerates their Lean definitions from the current Rust text before every build (PREBUILD) and theorem kernels_agree_with_source proves them equal to the model's definitions for all arguments; trusted there: the translator's reading of the small Rust subset it accepts (it rejects everything else) and its fixed Decimal prelude (abs, is_zero, checked_div = None exactly on a zero divisor, MAX/MIN)",
 ]
 SOURCE_FILES = ["barter/src/statistic/summary/dataset/mod.rs", "barter/src/statistic/summary/dataset/dispersion.rs", "barter/src/statistic/algorithm.rs"]
-PREBUILD = [["python3", "tools/rust2lean.py", "--require", "welford"]]
+PREBUILD = [["python3", "tools/rust2lean.py", "--require", "welford"],
+            ["python3", "tools/rust2lean_sm.py", "--require", "dataset"]]
 
 
 def signature(ops, k, key, impl_line, spec_line):
@@ -50,4 +51,5 @@ LEVEL_NOTE = ("Trusted: Lean kernel; axioms propext/Classical.choice/Quot.sound 
               "sequences of length <=5 over 5 values thorough); harness and driver. Exact arithmetic over Q: `within decimal rounding` is proved as equality, rust_decimal "
               "rounding/overflow and Decimal::sqrt are not modelled (division- and sqrt-derived fields compared to 1e-18; worst observed deviation 1e-23). "
               "Histories start at DataSetSummary::default(). "
-              "Additionally tied by translation: the Lean definitions of the kernels welford_online::calculate_mean / calculate_recurrence_relation_m / calculate_population_variance (barter/src/statistic/algorithm.rs) are regenerated from the current source on every run (tools/rust2lean.py) and proved equal to the model's (kernels_agree_with_source), so a change of such a kernel breaks a proof obligation directly; the translator and its Decimal prelude are trusted for that tie.")
+              "Additionally tied by translation: the Lean definitions of the kernels welford_online::calculate_mean / calculate_recurrence_relation_m / calculate_population_variance (barter/src/statistic/algorithm.rs) are regenerated from the current source on every run (tools/rust2lean.py) and proved equal to the model's (kernels_agree_with_source), so a change of such a kernel breaks a proof obligation directly; the translator and its Decimal prelude are trusted for that tie. "
+              "The whole DataSetSummary / Dispersion / Range state machine (structs, derived Defaults, Range::{init,update,range}, Dispersion::update, DataSetSummary::update) is likewise regenerated by tools/rust2lean_sm.py (Generated/Machines2.lean) and proved equal to the model for all states, values and every sqrt returning Some on non-negative input (state_machine_agrees_with_source; algorithm::sqrt itself stays an untranslated parameter).")
